@@ -5,6 +5,7 @@ import Jrpc.Oracle.C12
 import Jrpc.Oracle.C02
 import Jrpc.Oracle.C13
 import Jrpc.Oracle.C03
+import Jrpc.Oracle.C06
 /-! The model oracle: one line in, one line out. First token selects the sub-command. -/
 open Jrpc.Oracle
 
@@ -19,6 +20,8 @@ def dispatch (line : String) : String :=
   | "c13p" :: r => C02.handleParse r
   | "c13e" :: r => C13.handle r
   | "c03" :: r => C03.handle r
+  | "c06" :: r => C06.handleSem r
+  | "c07" :: r => C06.handleIds r
   | _ => "bad-op"
 
 partial def loop (h : IO.FS.Stream) (out : IO.FS.Stream) : IO Unit := do
